@@ -172,7 +172,8 @@ var vocabulary = []string{
 	"POINT", "LINESTRING", "POLYGON", "MULTIPOINT", "MULTILINESTRING", "MULTIPOLYGON", "GEOMETRYCOLLECTION",
 	"POINT Z", "POINTM", "POINT ZM", "LINESTRING M", "POLYGONZ", "MULTIPOINT M", "MULTILINESTRING ZM", "MULTIPOLYGON M",
 	"GEOMETRYCOLLECTION M", "GEOMETRYCOLLECTION Z", "GEOMETRYCOLLECTIONZM", "EMPTY", "(", ")", ",", "Z", "M", "ZM",
-	"0", "1 2", "1 2 3", "1 2 3 4", "1 2 3 4 5", "-1.5e3", "(0 0, 1 0, 1 1, 0 0)", "(0 0 0, 1 0 0, 1 1 0, 0 0 0)", "(0 0, 1 1)", "POINT EMPTY", "POINT M EMPTY",
+	"0", "1 2", "1 2 3", "1 2 3 4", "1 2 3 4 5", "-1.5e3", "1e999", "-1e400 2", "2e308 0", "1e-400", "1.7976931348623157e308", "1.7976931348623159e308",
+	"1" + strings.Repeat("0", 310), "0." + strings.Repeat("0", 400) + "1", "1e+", "1e", "--1", "1..2", ".", "-", "1e5e5", "(0 0, 1 0, 1 1, 0 0)", "(0 0 0, 1 0 0, 1 1 0, 0 0 0)", "(0 0, 1 1)", "POINT EMPTY", "POINT M EMPTY",
 }
 
 // texts of tokens of a valid text, for token-level mutation
@@ -198,7 +199,9 @@ func genMutant(t *rapid.T) Case {
 	n := rapid.IntRange(1, 3).Draw(t, "nmut")
 	for ; n > 0 && len(toks) > 0; n-- {
 		i := rapid.IntRange(0, len(toks)-1).Draw(t, "pos")
-		switch rapid.IntRange(0, 5).Draw(t, "mut") {
+		switch rapid.IntRange(0, 6).Draw(t, "mut") {
+		case 6: // an extreme number literal in place of a token (overflow, underflow, very long)
+			toks[i] = rapid.SampledFrom([]string{"1e999", "-1e400", "2e308", "1e-400", "1.7976931348623159e308", "-1.7976931348623157e308", "1" + strings.Repeat("0", 310), "0." + strings.Repeat("0", 330) + "7", "9e307", "4.9e-324", "2e-324"}).Draw(t, "extreme")
 		case 0:
 			toks = append(toks[:i:i], toks[i+1:]...)
 		case 1:
@@ -615,6 +618,7 @@ func FuzzWKT(f *testing.F) {
 		"POINT (1 2)", "POINT Z EMPTY", "MULTIPOINT M (EMPTY, 1 2 3, (4 5 6))", "POLYGON ((0 0, 1 0, 1 1, 0 0), (0 0, 1 0, 1 1, 0 0))",
 		"MULTIPOLYGON ZM (EMPTY, ((0 0 1 2, 1 0 1 2, 1 1 1 2, 0 0 1 2)))", "GEOMETRYCOLLECTION M (POINT EMPTY, GEOMETRYCOLLECTION (POINT M (1 2 3)))",
 		"GEOMETRYCOLLECTION (GEOMETRYCOLLECTION Z EMPTY, LINESTRING (1 2 3, 4 5 6))", "multilinestring((1e3 -2.5E-2, .5 5.))", "POINT(1 2\n3\t4 5)", "POINT\x00(", "GEOMETRYCOLLECTION M (POINT(0 0 0))",
+		"POINT (1e999 -1e999)", "LINESTRING (1e308 0, 2e308 0)", "POINT (1e-999 0)",
 	} {
 		f.Add(s)
 	}
